@@ -83,6 +83,9 @@ class World:
         n = int(m.group(1)) if m else -1
         op = self.current
         peer.requests.append(n)
+        if getattr(peer, "pending_rest", None):
+            rest, peer.pending_rest = peer.pending_rest, None
+            peer.send(rest)  # a server finishes the response it was sending before it answers the next request
         if peer.tainted:
             self.violations.append(("tainted-connection-reused", f"request r{n} was sent on connection {peer.idx} which is unusable: {peer.tainted}"))
         if op is not None and n == op["n"]:
@@ -129,6 +132,25 @@ class World:
         else:
             data = (hdr + "\r\n").encode() + body
             peer.tainted = "EOF-delimited response"
+        if ps.get("bad_coding") and fr == "cl" and len(body) >= 8:
+            # a body that does not decode under its declared content-coding, sent in two instalments: the first now, the rest
+            # when the connection is next used (or once this exchange is over).  Until the rest is out the response is
+            # incomplete on the wire: the connection cannot carry another request.
+            data = (hdr + f"Content-Encoding: gzip\r\nContent-Length: {len(body)}\r\n\r\n").encode() + body[: len(body) // 2]
+            peer.pending_rest = body[len(body) // 2:]
+            peer.tainted = peer.tainted or f"body of response r{n} not completely sent when the exchange failed (content-coding error)"
+            op["_expect_body"] = None
+            peer.send(data)
+
+            def later_rest() -> None:
+                if getattr(peer, "pending_rest", None) and self.current is None and not peer.transport.closing:
+                    rest, peer.pending_rest = peer.pending_rest, None
+                    peer.send(rest)
+
+            if ps.get("rest_when", "after") == "after":
+                op["_later"] = (peer, later_rest)
+            # else: the rest is only sent when this connection is used again (a slow server still busy with this response)
+            return
         trunc = ps.get("truncate")
         if trunc is not None:
             data = data[: max(1, len(data) - 1 - trunc)]
@@ -254,13 +276,21 @@ def execute(case: dict) -> dict:
                                 res["body"] = await resp.read()
                             elif op["read"] == "partial":
                                 res["body_prefix"] = await resp.content.read(5)
+                            elif op["read"] == "stream":
+                                got = bytearray()
+                                while True:
+                                    chunk = await resp.content.read(64)
+                                    if not chunk:
+                                        break
+                                    got.extend(chunk)
+                                res["body"] = bytes(got)
                         except Exception as e:  # noqa: BLE001
                             res["read_error"] = type(e).__name__
                         if op.get("end", "release") == "close":
                             resp.close()
                         else:
                             resp.release()
-                        if op["read"] != "full":
+                        if op["read"] not in ("full", "stream") or "read_error" in res:
                             # the application abandoned the exchange before the whole response had arrived:
                             # that connection is done for (if everything had arrived already it is clean)
                             for p in world.peers:
@@ -362,7 +392,7 @@ def cases(draw, narrow: bool):
         "op": st.just("req"),
         "h": st.integers(0, nhosts - 1), "p": st.integers(0, 0 if narrow else 1), "tls": st.booleans() if not narrow else st.just(False),
         "proxy": st.sampled_from([0, 0, 0, 1, 2, 3]) if not narrow else st.just(0),
-        "read": st.sampled_from(["full", "full", "full", "partial", "none"]),
+        "read": st.sampled_from(["full", "full", "full", "stream", "stream", "partial", "none"]),
         "end": st.sampled_from(["release", "release", "close"]),
         "settle": st.integers(0, 4),
         "expect": st.sampled_from([False, False, False, False, True]),
@@ -371,6 +401,8 @@ def cases(draw, narrow: bool):
             "framing": st.sampled_from(["cl", "cl", "chunked", "eof"]),
             "status": st.sampled_from([200, 200, 200, 204, 304]),
             "announce_close": st.sampled_from([None, None, None, None, "header", "http10"]),
+            "bad_coding": st.sampled_from([False, False, False, False, True]),
+            "rest_when": st.sampled_from(["after", "next"]),
             "size": st.sampled_from([0, 1, 10, 300]),
             "surplus": st.sampled_from([None, None, "garbage", "response", "two_responses", "partial"]),
             "surplus_when": st.sampled_from(["same", "later"]),
@@ -394,6 +426,13 @@ def cases(draw, narrow: bool):
                 o["head"] = False
             if ps["framing"] == "chunked" and ps.get("announce_close") == "http10":
                 ps["announce_close"] = None  # no chunked coding in HTTP/1.0
+            if ps.get("bad_coding"):
+                ps["surplus"] = None
+                ps["truncate"] = None
+                ps["status"] = 200
+                ps["close_after"] = False
+                o["head"] = False
+                o["expect"] = False
             if o.get("head") or ps["status"] in (204, 304):
                 ps["truncate"] = None  # nothing to truncate: these responses end with the header block
                 if ps["framing"] == "eof":
